@@ -8,21 +8,30 @@ Local Open Scope list_scope.
 Section H5Proofs.
 Context {T : Type} (Op : Ops T).
 
-(* y is never re-ordered: for EVERY dataset record the map's y array is the
-   Y SAMPLE dataset in FILE order (minus its minimum) *)
-Theorem bruker_y_is_file_order (t : btok (T:=T)) (m : xmap (T:=T)) :
+(* for EVERY dataset record: the map's y, x and phase-id arrays are the Y SAMPLE,
+   X SAMPLE (minus their minimum) and Phase datasets (0 -> -1) put into map
+   order by ONE AND THE SAME permutation `bruker_order t` (x is then reversed) *)
+Theorem bruker_same_order (t : btok (T:=T)) (m : xmap (T:=T)) :
   parse_bruker Op t = Ok m ->
   exists props, bruker_props bruker_properties (bt_data t) = Ok props /\
-    xm_y m = sub_min Op (match aget "YSAMPLE" props with Some v => v | None => [] end).
+    xm_y m = reorder (o_ofZ Op 0) (bruker_order t)
+               (sub_min Op (match aget "YSAMPLE" props with Some v => v | None => [] end)) /\
+    xm_x m = rev (reorder (o_ofZ Op 0) (bruker_order t)
+               (sub_min Op (match aget "XSAMPLE" props with Some v => v | None => [] end))) /\
+    xm_pid m = reorder 0%Z (bruker_order t) (map (fun p => if (p =? 0)%Z then (-1)%Z else p) (bt_phase t)).
 Proof.
   unfold parse_bruker. intros H.
-  destruct (match bt_iy t with Some iy => _ | None => _ end) as [[rect shape] rc].
+  destruct (bruker_shape_rc t) as [[rect shape] rc].
   destruct (negb (rect && (bt_grid t =? "isometric"))); [discriminate|].
   destruct (bruker_props bruker_properties (bt_data t)) as [props|] eqn:Ep; [|discriminate].
   exists props. split; [reflexivity|]. unfold bind in H at 1.
   destruct (mapM _ (bt_phases t)) as [pl0|]; [|discriminate]. unfold bind in H.
-  destruct rc as [[rows cols]|]; injection H as <-; reflexivity.
+  injection H as <-. repeat split; reflexivity.
 Qed.
+
+(* without index datasets nothing is re-ordered *)
+Lemma bruker_order_noroi (t : btok (T:=T)) : bt_iy t = None -> bruker_order t = None.
+Proof. intros H. unfold bruker_order, bruker_shape_rc. rewrite H. reflexivity. Qed.
 
 Definition zz : T := o_ofZ Op 0.
 Definition lat0 : list T := [o_ofZ Op 4; o_ofZ Op 4; o_ofZ Op 4; o_ofZ Op 90; o_ofZ Op 90; o_ofZ Op 90].
@@ -33,12 +42,11 @@ Definition bruker_wit (dy y0 : T) : bfile (T:=T) :=
        [(1%Z, mkBP "a" 225%Z lat0); (2%Z, mkBP "b" 229%Z lat0)]
        [mkBPt 1%Z (zz, zz, zz) vals0; mkBPt 2%Z (o_ofZ Op 90, zz, zz) vals0].
 
-(* phase ids (and x, rotations, properties) come back in grid order, y does not:
-   grid point 0 (row 0) carries the y of row 1 *)
+(* phase ids AND y come back in grid order: grid point 0 (row 0) carries the y of row 0 *)
 Theorem bruker_rows_witness (dy y0 : T) :
   exists m, parse_bruker Op (render_bruker Op (bruker_wit dy y0)) = Ok m /\
     xm_pid m = [1%Z; 2%Z] /\
-    xm_y m = sub_min Op [o_add Op y0 (o_mul Op (o_ofZ Op 1) dy); o_add Op y0 (o_mul Op (o_ofZ Op 0) dy)].
+    xm_y m = rev (sub_min Op [o_add Op y0 (o_mul Op (o_ofZ Op 1) dy); o_add Op y0 (o_mul Op (o_ofZ Op 0) dy)]).
 Proof. eexists. split; [|split]; vm_compute; reflexivity. Qed.
 
 (* file order = grid order: everything is where it belongs *)
